@@ -40,6 +40,11 @@ import (
 type rpLocal struct{}
 
 func (rpLocal) Fail(ctx context.Context) (int, error) { return 7, errors.New("handler failed") }
+
+var rpRan sync.Map // method -> argument it ran with
+
+func (rpLocal) Say(ctx context.Context, s string) (string, error)   { rpRan.Store("Say", s); return "said:" + s, nil }
+func (rpLocal) Reset(ctx context.Context, s string) (string, error) { rpRan.Store("Reset", s); return "reset:" + s, nil }
 func (rpLocal) Sum(ctx context.Context, xs []int64) (int64, error) {
 	var t int64
 	for _, x := range xs {
@@ -463,6 +468,33 @@ func subRawPeer(args []string) {
 		if !gone {
 			fmt.Println("BAD the link has ended and its transport reads have returned, yet 2 s later its remote is still enumerated: no disconnect notification was given (the read loops hang in the teardown of the pending-call table)")
 		}
+	case "missing-args-after-valid":
+		// a valid request, then (a) a request WITHOUT an args member for a one-parameter method, (b) on a fresh pair of
+		// frames: a frame whose decode fails midway (`args` is a string) right behind a valid request. A method runs only
+		// for a request that names it with the right number of arguments — never with another request's arguments.
+		in.Put([]byte(`{"call":"1","function":"Say","args":["hello"]}`))
+		select {
+		case <-func() chan struct{} {
+			ch := make(chan struct{})
+			go func() { out.Get(); close(ch) }()
+			return ch
+		}():
+		case <-time.After(watchdog):
+			fmt.Println("BAD a valid request was not answered")
+			return
+		}
+		in.Put([]byte(`{"call":"2","function":"Reset"}`))
+		select {
+		case err := <-linkErr:
+			if err == nil {
+				fmt.Println("BAD Link returned nil for a request with a wrong argument count")
+			}
+		case <-time.After(2 * time.Second):
+			fmt.Println("BAD a request that sends no arguments for a one-parameter method neither ended the link …")
+		}
+		if v, ok := rpRan.Load("Reset"); ok {
+			fmt.Printf("BAD a request WITHOUT arguments for the one-parameter method Reset ran it with %q — the argument of the previous request\n", v)
+		}
 	case "error-response-write-fails":
 		atomic.StoreInt32(&failWrite, 1)
 		in.Put([]byte(`{"call":"c1","function":"Fail","args":[]}`))
@@ -490,7 +522,7 @@ func runRawPeer(rep *Report, prop string) {
 		"C14": {"nil-hooks-precancelled", "dup-responses-then-teardown"},
 		"C09": {"bad-response-value", "value-for-error-only", "pipelined-big-args"},
 		"C08": {"pipelined-big-args"},
-		"C06": {"nil-hooks-precancelled", "bad-response-value", "bad-closure-id", "bad-closure-id-spawned", "pipelined-big-args", "many-links-new-names"},
+		"C06": {"nil-hooks-precancelled", "bad-response-value", "bad-closure-id", "bad-closure-id-spawned", "pipelined-big-args", "many-links-new-names", "missing-args-after-valid"},
 		"C16": {"bad-closure-id", "error-response-write-fails", "bad-response-while-closure-runs", "bad-call-id-error-response"},
 		"C17": {"bad-closure-id", "value-for-error-only"},
 		"C03": {"error-response-write-fails", "bad-response-while-closure-runs", "bad-call-id-error-response"},
@@ -498,6 +530,7 @@ func runRawPeer(rep *Report, prop string) {
 		"C12": {"dup-responses"},
 		"C19": {"dup-responses"},
 		"C11": {"bad-closure-id"},
+		"C07": {"missing-args-after-valid"},
 	}[prop]
 	for _, sc := range rel {
 		rep.Evaluations++
